@@ -1476,6 +1476,8 @@ impl WriteTaskState {
                 completion,
                 on_attached,
             } => {
+                // A new registration does not inherit the links of one that it replaces.
+                links.remove_remote(id);
                 remote_tracker.insert(id, writer, completion);
                 if let Some(on_attached) = on_attached {
                     on_attached.trigger();
@@ -1869,7 +1871,9 @@ where
                     "Writing to remote {} failed. Removing attached uplinks.",
                     remote_id
                 );
-                state.remove_remote(remote_id, DisconnectionReason::ChannelClosed);
+                if state.remote_tracker.is_current(&writer) {
+                    state.remove_remote(remote_id, DisconnectionReason::ChannelClosed);
+                }
             }
             WriteTaskEvent::LaneFailed(lane_id) => {
                 error!(
